@@ -610,7 +610,10 @@ func (e *Explorer) runPath(prefix []bool, wantWitness bool) (completed bool, wit
 				case engineUnsupported:
 					e.inconclusive("unsupported: " + p.why + " @ " + e.stack())
 				case blockedForever:
-					e.inconclusive("the harness thread blocks forever: " + p.why + " @ " + e.stack())
+					// the harness thread can never continue: a deadlock candidate,
+					// confirmed natively by a run that does not return in time
+					panicMsg = "deadlock: " + p.why
+					e.recordViolation("deadlock", strings.Replace(e.panicLabel(), "no-panic", "no-deadlock", 1), panicMsg+" @ "+e.stack())
 				case targetPanic:
 					panicMsg = "panic: " + toString(p.v)
 					e.recordViolation("panic", e.panicLabel(), panicMsg+" @ "+e.stack())
